@@ -1,9 +1,11 @@
 import BddVerif.Drive.Tables
 import BddVerif.Gen.OpTables
 import BddVerif.Model.Count
+import BddVerif.Model.F64
 /-!
 Driver for C09. Per case it (a) recomputes the observation with the model (`exactCardO`, `clauseCardO`,
-`supportSet`, `sizePerVariable`; for the laws also `applyWithFlip`/`bddNot`), and (b) evaluates the
+`supportSet`, `sizePerVariable`, and `cardF64Bits` — the exact binary64 model of `cardinality()`, compared
+BIT FOR BIT with the observed `to_bits()`; for the laws also `applyWithFlip`/`bddNot`), and (b) evaluates the
 property's own predicate on the OBSERVED values, independently of the cached level-gap arithmetic:
 
 * exact count = popcount of the truth table (n ≤ 12) and = Σ over root-to-one paths of 2^(n − path
@@ -12,9 +14,11 @@ property's own predicate on the OBSERVED values, independently of the cached lev
 * support (canonical diagrams) = variables the function depends on (truth table for n ≤ 12; for large n
   brute force over the assignments of the reported variables, plus "no node tests another variable");
 * size_per_variable: keys = support, counts sum to size − 2;
-* `cardinality()` (f64, given as its bit pattern) against the exact count in exact rational arithmetic:
-  not NaN, not negative; `+inf` only if exact·(1 + size·2⁻⁵⁰) ≥ f64::MAX; otherwise finite with
-  |f − exact| ≤ exact·size·2⁻⁵⁰. IEEE arithmetic itself is outside the model (partial);
+* `cardinality()` (f64, given as its bit pattern): the statement of `Props.C09.cardinality_f64_spec` /
+  `cardinality_f64_zero_iff` evaluated in exact natural arithmetic on the OBSERVED bits (decoded with
+  `F64.ofBits`; independent of the traversal model): sign bit 0, not NaN; finite ⇒ an integer `v` with
+  `c·(P−1)^d ≤ v·P^d ≤ c·(P+1)^d`, `P = 2^53`; `+inf` ⇒ `(2^1024 − 2^970)·P^d ≤ c·(P+1)^d`; `0.0 ⇔ c = 0`;
+  `c` = the observed exact count, `d` = min(longest path, n, size − 2) (`pathDepth_le`);
 * laws: |a∨b| + |a∧b| = |a| + |b| and |¬a| = 2ⁿ − |a| on the observed numbers;
 * `C09.res`: the same clauses on the RESULT of a library operation (exists, for_all, restrict, pick,
   substitute, …), with the support clause evaluated unconditionally against the truth table.
@@ -107,26 +111,60 @@ def parseHex? (s : String) : Option Nat :=
 
 def f64Max : Nat := (2 ^ 53 - 1) * 2 ^ 971
 
-/-- the floating-point clause; `none` = holds -/
-def checkF64 (bits exact size : Nat) : Option String :=
-  let sign := bits >>> 63
-  let e := (bits >>> 52) % 2048
-  let m := bits % 2 ^ 52
-  if sign = 1 ∧ (e ≠ 0 ∨ m ≠ 0) then some "f64-negative"
-  else if e = 2047 then
-    if m ≠ 0 then some "f64-nan"
-    else if exact * (2 ^ 50 + size) ≥ f64Max * 2 ^ 50 then none else some "f64-inf-but-representable"
+def hexDigit (d : Nat) : Char := if d < 10 then Char.ofNat (48 + d) else Char.ofNat (87 + d)
+/-- 16 lower-case hex digits, the harness's `{:016x}` -/
+def hex16 (x : Nat) : String :=
+  String.ofList ((List.range 16).map fun i => hexDigit ((x >>> (4 * (15 - i))) % 16))
+
+/-- the model's prediction of `cardinality().to_bits()` as printed by the harness -/
+def showBitsO (A : Arr) : String :=
+  match cardF64O A with
+  | .ok x => hex16 x.toBits
+  | _ => "panic"
+
+/-- longest-path pass (memoised depth-first, one cache entry per decision node) -/
+def depthGo (A : Arr) : Nat → Nat → Array (Option Nat) → Array (Option Nat)
+  | 0, _, c => c
+  | fuel + 1, p, c =>
+    if p < 2 then c else
+    match c.getD p none with
+    | some _ => c
+    | none =>
+      let c := c.setIfInBounds p none
+      let nd := nodeAt A p
+      let c2 := depthGo A fuel nd.low (depthGo A fuel nd.high c)
+      let dl := if nd.low < 2 then 0 else (c2.getD nd.low none).getD 0
+      let dh := if nd.high < 2 then 0 else (c2.getD nd.high none).getD 0
+      c2.setIfInBounds p (some (1 + max dl dh))
+
+/-- number of decision nodes on the longest root-to-terminal path of a valid diagram, capped by the
+    number of variables and of stored decision nodes (`Props.C09.pathDepth_le`) -/
+def roundings (A : Arr) : Nat :=
+  let n := numVars A
+  let cap := min n (A.size - 2)
+  if A.size ≤ 2 || !cardOk A then 0
   else
-    -- value = num / den
-    let mant := if e = 0 then m else 2 ^ 52 + m
-    let ex : Int := (if e = 0 then 1 else (e : Int)) - 1075
-    let num := if ex ≥ 0 then mant * 2 ^ ex.toNat else mant
-    let den := if ex ≥ 0 then 1 else 2 ^ (-ex).toNat
-    let a := num
-    let b := exact * den
-    let diff := if a ≥ b then a - b else b - a
-    if exact = 0 then (if bits = 0 then none else some "f64-zero")
-    else if diff * 2 ^ 50 ≤ exact * size * den then none else some "f64-tolerance"
+    let c := depthGo A (cardFuel A) (root A) (Array.replicate A.size none)
+    min cap ((c.getD (root A) none).getD cap)
+
+/-- the floating-point clause = the statement of `cardinality_f64_spec` + `cardinality_f64_zero_iff` on
+    the observed bit pattern; `exact` is the observed exact count, `d` the number of roundings allowed;
+    `none` = holds -/
+def checkF64 (bits exact d : Nat) : Option String :=
+  if bits ≥ 2 ^ 63 then some "f64-negative"
+  else
+    let P : Nat := 2 ^ 53
+    match F64.ofBits bits with
+    | .nan => some "f64-nan"
+    | .inf =>
+      if (2 ^ 1024 - 2 ^ 970) * P ^ d ≤ exact * (P + 1) ^ d then none else some "f64-inf-but-representable"
+    | .fin s =>
+      if s % 2 ^ 1074 ≠ 0 then some "f64-not-an-integer"
+      else
+        let v := s / 2 ^ 1074
+        if (v == 0) != (exact == 0) then some "f64-zero"
+        else if exact * (P - 1) ^ d ≤ v * P ^ d ∧ v * P ^ d ≤ exact * (P + 1) ^ d then none
+        else some "f64-rounding-bound"
 
 def firstFail (xs : List (Option String)) : Option String := xs.findSome? id
 
@@ -148,8 +186,8 @@ def handle (key : String) (ins obs : List String) : Verdict :=
     match parseArr? a with
     | some A =>
       let n := numVars A
-      let model := s!"{showO (exactCardO A)} {showO (clauseCardO A)} {showNats (supportSet A)} {showPairs (sizePerVariable A)} {A.size}"
-      let observed := s!"{oExact} {oClause} {oSup} {oSpv} {oSize}"
+      let model := s!"{showO (exactCardO A)} {showO (clauseCardO A)} {showBitsO A} {showNats (supportSet A)} {showPairs (sizePerVariable A)} {A.size}"
+      let observed := s!"{oExact} {oClause} {oBits} {oSup} {oSpv} {oSize}"
       let fail : Option String :=
         match oExact.toNat?, oClause.toNat?, parseHex? oBits, parseNats? oSup, parsePairs? oSpv, oSize.toNat? with
         | some ex, some cl, some bits, some sup, some spv, some sz =>
@@ -173,7 +211,7 @@ def handle (key : String) (ins obs : List String) : Verdict :=
             if spv.map (·.1) == sup then none else some "spv-keys≠support",
             if (spv.map (·.2)).foldl (· + ·) 0 + 2 == sz ∨ (sz < 2 ∧ spv.isEmpty) then none else some "spv-sum≠size-2",
             if spv.all (·.2 > 0) then none else some "spv-zero-entry",
-            checkF64 bits ex sz ]
+            checkF64 bits ex (roundings A) ]
         | _, _, _, _, _, _ => some s!"outcome:{oExact},{oClause},{oBits},{oSup},{oSpv}"
       { agree := model == observed, model, fail, nontrivial := A.size > 2, tags := tagsCnt A oExact.toNat? }
     | none => Verdict.bad "args"
@@ -202,8 +240,8 @@ def handle (key : String) (ins obs : List String) : Verdict :=
     match parseArr? f, parseArr? oRes with
     | some F, some R =>
       let n := numVars R
-      let model := s!"{showO (exactCardO R)} {showO (clauseCardO R)} {showNats (supportSet R)} {showPairs (sizePerVariable R)} {R.size}"
-      let observed := s!"{oExact} {oClause} {oSup} {oSpv} {oSize}"
+      let model := s!"{showO (exactCardO R)} {showO (clauseCardO R)} {showBitsO R} {showNats (supportSet R)} {showPairs (sizePerVariable R)} {R.size}"
+      let observed := s!"{oExact} {oClause} {oBits} {oSup} {oSpv} {oSize}"
       let fail : Option String :=
         match oExact.toNat?, oClause.toNat?, parseHex? oBits, parseNats? oSup, parsePairs? oSpv, oSize.toNat? with
         | some ex, some cl, some bits, some sup, some spv, some sz =>
@@ -217,7 +255,7 @@ def handle (key : String) (ins obs : List String) : Verdict :=
             if spv.map (·.1) == sup then none else some "spv-keys≠support",
             if (spv.map (·.2)).foldl (· + ·) 0 + 2 == sz ∨ (sz < 2 ∧ spv.isEmpty) then none else some "spv-sum≠size-2",
             if spv.all (·.2 > 0) then none else some "spv-zero-entry",
-            checkF64 bits ex sz ]
+            checkF64 bits ex (roundings R) ]
         | _, _, _, _, _, _ => some s!"outcome:{oExact},{oClause},{oBits},{oSup},{oSpv}"
       { agree := model == observed, model, fail, nontrivial := R.size > 2 && R != F,
         tags := ["res", s!"op-{op}", if isCanon R then "res-canon" else "res-noncanon"] }
